@@ -27,7 +27,23 @@ def action_obligation(name):
         run.assume('awaited sub-futures complete; tracing disabled; address of a verification key is an uninterpreted function of the key')
         if name in EXTRA:
             run.bound(upgrades='all upgrade changes active (post-Aspen / post-Blackburn code paths)')
-        w0, res = A.run_action(run, ex, W, name, world_extra=EXTRA.get(name))
+        prep = None
+        if name == 'InitBridgeAccount':
+            def prep(me):
+                # explicit optional addresses (both views of an address the engine uses: the `bytes` field and the identity attribute), so that every copy agrees
+                a_ = ex.adts.lookup('astria_core_address::Address')
+                if not a_ or 'bytes' not in a_['fields']:
+                    raise Inconclusive('astria_core_address::Address { bytes, .. } not found (refactored?)')
+                opts = {}
+                for fld in ('sudo_address', 'withdrawer_address'):
+                    ad = Obj('astria_core::primitive::v1::Address'); bv = z3.BitVec(f'named_{fld}', 160)
+                    ad.fields[(None, a_['fields'].index('bytes'))] = bv; ad.attrs['addr160'] = bv
+                    o = Obj('std::option::Option<astria_core::primitive::v1::Address>'); o.discr = z3.If(z3.Bool(f'{fld}_is_named'), z3.BitVecVal(1, 64), z3.BitVecVal(0, 64)); o.fields[('Some', 0)] = ad
+                    opts[fld] = o
+                act_ = B.struct(ex, 'astria_core::protocol::transaction::v1::action::InitBridgeAccount', **opts)
+                am = ex.adts.lookup(me.ty)
+                me.fields[(None, am['fields'].index('action'))] = act_
+        w0, res = A.run_action(run, ex, W, name, world_extra=EXTRA.get(name), prep=prep)
         n_ok = 0
         for i, (p, kind, r, me) in enumerate(res):
             if kind == 'panic':
@@ -40,6 +56,12 @@ def action_obligation(name):
             for label, claim in A.c02_claims(w0, p.world, signer):
                 run.prove(f'{label} [path {i}]', p.pc, claim)
             run.prove(f'{name} writes only {sorted(WRITE_SET[name])} [path {i}]', p.pc, A.unchanged(w0, p.world, except_=WRITE_SET[name]))
+            if name == 'InitBridgeAccount':
+                # who holds the two per-bridge privileges afterwards: the address named in the action, and the SIGNER (nobody else) when none is named
+                for fld, fam in (('sudo_address', 'bridge_sudo'), ('withdrawer_address', 'bridge_withdrawer')):
+                    want = z3.If(z3.Bool(f'{fld}_is_named'), z3.BitVec(f'named_{fld}', 160), signer)
+                    run.prove(f'InitBridgeAccount: {fld.split("_")[0]} of the new bridge account = the address named in the action, else the signer itself [path {i}]', p.pc,
+                              z3.And(z3.Select(p.world[fam + '?'], signer), z3.Select(p.world[fam], signer) == want))
         if n_ok == 0:
             raise Inconclusive('vacuity: no successful execution path')
         run.require_reached(*run.cur.reach)
